@@ -9,6 +9,7 @@ import (
 	"github.com/nspcc-dev/neo-go/pkg/core/state"
 	"github.com/nspcc-dev/neo-go/pkg/io"
 	"github.com/nspcc-dev/neo-go/pkg/smartcontract"
+	"github.com/nspcc-dev/neo-go/pkg/smartcontract/callflag"
 	"github.com/nspcc-dev/neo-go/pkg/smartcontract/manifest"
 	"github.com/nspcc-dev/neo-go/pkg/smartcontract/nef"
 	"github.com/nspcc-dev/neo-go/pkg/util"
@@ -433,4 +434,59 @@ var patches []patch
 // hashFor returns the hash the contract gets when deployed by sender.
 func (k *kContract) hashFor(sender util.Uint160) util.Uint160 {
 	return state.CreateContractHash(sender, k.NEF.Checksum, k.Manifest.Name)
+}
+
+// buildTok assembles the token-holding helper contract: its one method reaches target.seq(list) through a method
+// token (CALLT) - a statically linked call - from inside a try block, and says what came of it.
+//
+//	tryTok(list) -> try{ CALLT target.seq(list) } catch{}; then notify "ok"/"caught"
+func buildTok(name string, target util.Uint160) *kContract {
+	b := io.NewBufBinWriter()
+	w := b.BinWriter
+	emit.InitSlot(w, 1, 1)
+	tryPos := b.Len()
+	emit.Instruction(w, opcode.TRY, []byte{0, 0})
+	emit.Opcodes(w, opcode.LDARG0)
+	emit.Instruction(w, opcode.CALLT, []byte{0, 0})
+	emit.String(w, "ok")
+	emit.Opcodes(w, opcode.STLOC0)
+	endtry1 := b.Len()
+	emit.Instruction(w, opcode.ENDTRY, []byte{0})
+	catchPos := b.Len()
+	emit.Opcodes(w, opcode.DROP)
+	emit.String(w, "caught")
+	emit.Opcodes(w, opcode.STLOC0)
+	endtry2 := b.Len()
+	emit.Instruction(w, opcode.ENDTRY, []byte{0})
+	endPos := b.Len()
+	emit.Opcodes(w, opcode.LDLOC0)
+	notifyTop(w)
+	emit.Opcodes(w, opcode.RET)
+	if b.Err != nil {
+		panic(b.Err)
+	}
+	script := b.Bytes()
+	script[tryPos+1] = byte(catchPos - tryPos)
+	script[endtry1+1] = byte(endPos - endtry1)
+	script[endtry2+1] = byte(endPos - endtry2)
+	m := manifest.NewManifest(name)
+	m.ABI.Methods = []manifest.Method{{Name: "tryTok", Offset: 0, ReturnType: smartcontract.VoidType,
+		Parameters: []manifest.Parameter{manifest.NewParameter("a0", smartcontract.AnyType)}}}
+	m.ABI.Events = []manifest.Event{{Name: "E", Parameters: []manifest.Parameter{manifest.NewParameter("x", smartcontract.AnyType)}}}
+	m.Permissions = []manifest.Permission{*manifest.NewPermission(manifest.PermissionWildcard)}
+	ne, err := nef.NewFile(script)
+	if err != nil {
+		panic(err)
+	}
+	ne.Tokens = []nef.MethodToken{{Hash: target, Method: "seq", ParamCount: 1, HasReturn: false, CallFlag: callflag.All}}
+	ne.Checksum = ne.CalculateChecksum()
+	nb, err := ne.Bytes()
+	if err != nil {
+		panic(err)
+	}
+	mb, err := json.Marshal(m)
+	if err != nil {
+		panic(err)
+	}
+	return &kContract{Name: name, NEF: ne, Manifest: m, NEFBytes: nb, ManBytes: mb}
 }
